@@ -27,7 +27,7 @@ func vxOutputOK(path string) bool {
 
 func vxNoTempLeft() bool {
 	for _, p := range vxFSList(".") {
-		if strings.HasPrefix(p, "_scipipe_tmp") || strings.HasSuffix(p, ".fifo") {
+		if strings.HasPrefix(p, vxTempPrefix()) || vxFSKind(p) == vxFifo {
 			return false
 		}
 	}
